@@ -233,6 +233,13 @@ func IsSafeObjectKey(key string) bool {
 	if strings.ContainsRune(key, 0) {
 		return false
 	}
+	// the directory the gateway keeps its temporary files and the parts of
+	// multipart uploads in is not part of the key space: objects stored
+	// there are not listed and are removed with the next cleanup or with
+	// DeleteBucket, and part files would be readable as objects
+	if key == reservedTmpDir || strings.HasPrefix(key, reservedTmpDir+"/") {
+		return false
+	}
 	for _, seg := range strings.Split(key, "/") {
 		if seg == "." || seg == ".." {
 			return false
@@ -240,6 +247,10 @@ func IsSafeObjectKey(key string) bool {
 	}
 	return true
 }
+
+// reservedTmpDir is the name of the per bucket directory the posix and
+// scoutfs backends use for temporary data (metaTmpDir there)
+const reservedTmpDir = ".sgwtmp"
 
 // IsSafeID reports whether a version id or upload id is a plain name:
 // no path separators, no `.` or `..`, no NUL bytes
